@@ -1,6 +1,446 @@
 /- helper lemmas for expiry (C04) -/
 import DC.Proofs.Paging
 
-namespace DC.Cache
+namespace DC
 
-end DC.Cache
+/-! ### generic: the stable insertion sort -/
+
+theorem insertBy_perm_ec {α} (lt : α → α → Bool) (x : α) (l : List α) :
+    (insertBy lt x l).Perm (x :: l) := by
+  induction l with
+  | nil => exact .refl _
+  | cons y ys ih =>
+    simp only [insertBy]; split
+    · exact (List.Perm.cons y ih).trans (List.Perm.swap x y ys)
+    · exact .refl _
+
+theorem isort_perm {α} (lt : α → α → Bool) (l : List α) : (isort lt l).Perm l := by
+  induction l with
+  | nil => exact .refl _
+  | cons x xs ih => exact (insertBy_perm_ec lt x _).trans (ih.cons x)
+
+theorem mem_isort_ec {α} {lt : α → α → Bool} {l : List α} {a : α} : a ∈ isort lt l ↔ a ∈ l :=
+  (isort_perm lt l).mem_iff
+
+theorem length_isort_ec {α} (lt : α → α → Bool) (l : List α) : (isort lt l).length = l.length :=
+  (isort_perm lt l).length_eq
+
+theorem nodup_isort {α} {lt : α → α → Bool} {l : List α} (h : l.Nodup) : (isort lt l).Nodup :=
+  (isort_perm lt l).nodup_iff.2 h
+
+/-- `lt` is the strict part of a total preorder -/
+structure StrictWeak {α} (lt : α → α → Bool) : Prop where
+  asym : ∀ a b, lt a b = true → lt b a = false
+  trans : ∀ a b c, lt b a = false → lt c b = false → lt c a = false
+
+theorem insertBy_sorted {α} {lt : α → α → Bool} (hlt : StrictWeak lt) (x : α) (l : List α)
+    (h : l.Pairwise (fun a b => lt b a = false)) :
+    (insertBy lt x l).Pairwise (fun a b => lt b a = false) := by
+  induction l with
+  | nil => simp [insertBy]
+  | cons y ys ih =>
+    rw [List.pairwise_cons] at h
+    simp only [insertBy]; split
+    · rename_i hyx
+      rw [List.pairwise_cons]
+      refine ⟨?_, ih h.2⟩
+      intro z hz
+      rcases List.mem_cons.1 ((insertBy_perm_ec lt x ys).mem_iff.1 hz) with rfl | hz
+      · exact hlt.asym _ _ hyx
+      · exact h.1 z hz
+    · rename_i hyx
+      have hyx : lt y x = false := by simpa using hyx
+      rw [List.pairwise_cons]
+      refine ⟨?_, List.pairwise_cons.2 h⟩
+      intro z hz
+      rcases List.mem_cons.1 hz with rfl | hz
+      · exact hyx
+      · exact hlt.trans x y z hyx (h.1 z hz)
+
+theorem isort_sorted {α} {lt : α → α → Bool} (hlt : StrictWeak lt) (l : List α) :
+    (isort lt l).Pairwise (fun a b => lt b a = false) := by
+  induction l with
+  | nil => simp [isort]
+  | cons x xs ih => exact insertBy_sorted hlt x _ ih
+
+theorem take_le_drop {α} {R : α → α → Prop} {l : List α} (h : l.Pairwise R) (n : Nat) {a b : α}
+    (ha : a ∈ l.take n) (hb : b ∈ l.drop n) : R a b := by
+  rw [← List.take_append_drop n l, List.pairwise_append] at h
+  exact h.2.2 a ha b hb
+
+theorem mem_take_or_drop {α} {l : List α} (n : Nat) {a : α} (h : a ∈ l) :
+    a ∈ l.take n ∨ a ∈ l.drop n := by
+  rw [← List.take_append_drop n l] at h
+  exact List.mem_append.1 h
+
+/-- the first `n` of a sorted list are `≤` everything that is in the list but not among them -/
+theorem isort_take_le {α} {lt : α → α → Bool} (hlt : StrictWeak lt) (l : List α) (n : Nat) {a b : α}
+    (ha : a ∈ (isort lt l).take n) (hb : b ∈ l) (hnb : b ∉ (isort lt l).take n) :
+    lt b a = false := by
+  rcases mem_take_or_drop n (mem_isort_ec.2 hb) with h | h
+  · exact absurd h hnb
+  · exact take_le_drop (isort_sorted hlt l) n ha h
+
+theorem nodup_take_isort {α} {lt : α → α → Bool} {l : List α} (h : l.Nodup) (n : Nat) :
+    ((isort lt l).take n).Nodup :=
+  (nodup_isort h).sublist (List.take_sublist _ _)
+
+theorem mem_of_mem_take_isort {α} {lt : α → α → Bool} {l : List α} {n : Nat} {a : α}
+    (h : a ∈ (isort lt l).take n) : a ∈ l :=
+  mem_isort_ec.1 (List.mem_of_mem_take h)
+
+/-- removing a duplicate-free sub-multiset `P` from a duplicate-free list removes `|P|` elements -/
+theorem length_filter_not_mem {α} [DecidableEq α] {l P : List α} (hl : l.Nodup) (hP : P.Nodup)
+    (hsub : ∀ x ∈ P, x ∈ l) :
+    (l.filter (fun r => decide (r ∉ P))).length + P.length = l.length := by
+  have hperm : (l.filter (fun r => decide (r ∈ P))).Perm P := by
+    refine (List.perm_ext_iff_of_nodup (hl.sublist List.filter_sublist) hP).2 ?_
+    intro a
+    simp only [List.mem_filter, decide_eq_true_eq]
+    exact ⟨fun h => h.2, fun h => ⟨hsub a h, h⟩⟩
+  have h1 := List.length_eq_countP_add_countP (fun r => decide (r ∈ P)) (l := l)
+  rw [List.countP_eq_length_filter, List.countP_eq_length_filter, hperm.length_eq] at h1
+  have h2 : l.filter (fun r => decide (r ∉ P)) =
+      l.filter (fun a => decide ¬(decide (a ∈ P)) = true) := by
+    apply List.filter_congr; intro x _; simp
+  rw [h2]; omega
+
+theorem ltOptInt_strictWeak : StrictWeak (fun a b : Option Int => Cache.ltOptInt a b) := by
+  constructor
+  · intro a b; cases a <;> cases b <;> simp [Cache.ltOptInt] <;> omega
+  · intro a b c; cases a <;> cases b <;> cases c <;> simp [Cache.ltOptInt] <;> omega
+
+theorem StrictWeak.comap {α β} {lt : β → β → Bool} (h : StrictWeak lt) (f : α → β) :
+    StrictWeak (fun a b => lt (f a) (f b)) :=
+  ⟨fun a b => h.asym (f a) (f b), fun a b c => h.trans (f a) (f b) (f c)⟩
+
+namespace Cache
+
+/-! ### ascending rowids -/
+
+theorem RowidsAsc.inj {rows : List Row} (h : RowidsAsc rows) :
+    ∀ a ∈ rows, ∀ b ∈ rows, a.rowid = b.rowid → a = b := by
+  induction rows with
+  | nil => intro a ha; cases ha
+  | cons x t ih =>
+    rw [RowidsAsc, List.pairwise_cons] at h
+    intro a ha b hb hab
+    rcases List.mem_cons.1 ha with ha' | ha' <;> rcases List.mem_cons.1 hb with hb' | hb'
+    · rw [ha', hb']
+    · have := h.1 b hb'; rw [ha'] at hab; omega
+    · have := h.1 a ha'; rw [hb'] at hab; omega
+    · exact ih h.2 a ha' b hb' hab
+
+theorem RowidsAsc.nodup {rows : List Row} (h : RowidsAsc rows) : rows.Nodup :=
+  List.Pairwise.imp (R := fun a b : Row => a.rowid < b.rowid) (fun {a b} hab => by
+    intro e; subst e; exact Nat.lt_irrefl _ hab) h
+
+theorem RowidsAsc.filter {rows : List Row} (h : RowidsAsc rows) (p : Row → Bool) :
+    RowidsAsc (rows.filter p) :=
+  List.Pairwise.filter p h
+
+/-- with distinct rowids, deleting by the rowids of some of the rows deletes exactly those rows -/
+theorem filter_rowids_eq {rows P : List Row} (hasc : RowidsAsc rows) (hsub : ∀ x ∈ P, x ∈ rows) :
+    rows.filter (fun r => !(P.map (·.rowid)).contains r.rowid) =
+    rows.filter (fun r => decide (r ∉ P)) := by
+  apply List.filter_congr
+  intro r hr
+  have : r.rowid ∈ P.map (·.rowid) ↔ r ∈ P := by
+    constructor
+    · intro h
+      obtain ⟨a, ha, hra⟩ := List.mem_map.1 h
+      have := hasc.inj a (hsub a ha) r hr hra
+      exact this ▸ ha
+    · intro h; exact List.mem_map.2 ⟨r, h, rfl⟩
+  by_cases hP : r ∈ P <;> simp [hP, this]
+
+/-! ### the trace is a ghost field -/
+
+@[simp] theorem log_rows_ec (s : Cache) (a : Act) : (s.log a).rows = s.rows := rfl
+@[simp] theorem log_cfg_ec (s : Cache) (a : Act) : (s.log a).cfg = s.cfg := rfl
+@[simp] theorem log_env (s : Cache) (a : Act) : (s.log a).env = s.env := rfl
+@[simp] theorem log_size_ec (s : Cache) (a : Act) : (s.log a).size = s.size := rfl
+@[simp] theorem log_count_ec (s : Cache) (a : Act) : (s.log a).count = s.count := rfl
+@[simp] theorem log_depth_ec (s : Cache) (a : Act) : (s.log a).depth = s.depth := rfl
+@[simp] theorem logSql_rows_ec (s : Cache) (a : String) : (s.logSql a).rows = s.rows := rfl
+@[simp] theorem logSql_cfg_ec (s : Cache) (a : String) : (s.logSql a).cfg = s.cfg := rfl
+@[simp] theorem logSql_env (s : Cache) (a : String) : (s.logSql a).env = s.env := rfl
+@[simp] theorem logSql_size_ec (s : Cache) (a : String) : (s.logSql a).size = s.size := rfl
+@[simp] theorem logSql_count_ec (s : Cache) (a : String) : (s.logSql a).count = s.count := rfl
+@[simp] theorem logSql_depth_ec (s : Cache) (a : String) : (s.logSql a).depth = s.depth := rfl
+
+@[simp] theorem fremove_rows_ec (s : Cache) (f : Nat) : (s.fremove f).rows = s.rows := rfl
+@[simp] theorem fremove_cfg_ec (s : Cache) (f : Nat) : (s.fremove f).cfg = s.cfg := rfl
+
+@[simp] theorem fremoveAll_rows (s : Cache) (fs : List (Option Nat)) : (s.fremoveAll fs).rows = s.rows := by
+  unfold fremoveAll
+  induction fs generalizing s with
+  | nil => rfl
+  | cons f fs ih => cases f <;> simp [List.foldl_cons, ih]
+
+@[simp] theorem fremoveAll_cfg (s : Cache) (fs : List (Option Nat)) : (s.fremoveAll fs).cfg = s.cfg := by
+  unfold fremoveAll
+  induction fs generalizing s with
+  | nil => rfl
+  | cons f fs ih => cases f <;> simp [List.foldl_cons, ih]
+
+/-! ### DELETE … WHERE rowid IN (…) -/
+
+theorem delRowQuiet_rows_ec (s : Cache) (id : Nat) :
+    (s.delRowQuiet id).rows = s.rows.filter (·.rowid != id) := by
+  unfold delRowQuiet
+  split
+  · rfl
+  · rename_i h
+    symm
+    rw [List.filter_eq_self]
+    intro a ha
+    have := List.find?_eq_none.1 h a ha
+    simpa using this
+
+@[simp] theorem delRowQuiet_cfg_ec (s : Cache) (id : Nat) : (s.delRowQuiet id).cfg = s.cfg := by
+  unfold delRowQuiet; split <;> rfl
+
+@[simp] theorem delRowQuiet_env (s : Cache) (id : Nat) : (s.delRowQuiet id).env = s.env := by
+  unfold delRowQuiet; split <;> rfl
+
+@[simp] theorem delRowQuiet_depth_ec (s : Cache) (id : Nat) : (s.delRowQuiet id).depth = s.depth := by
+  unfold delRowQuiet; split <;> rfl
+
+theorem delRowQuiet_log (s : Cache) (a : Act) (id : Nat) :
+    (s.log a).delRowQuiet id = (s.delRowQuiet id).log a := by
+  unfold delRowQuiet
+  simp only [log_rows_ec]
+  split <;> rfl
+
+theorem delIn_nil (s : Cache) : s.delIn [] = s := rfl
+
+theorem delIn_cons (s : Cache) (i : Nat) (ids : List Nat) :
+    s.delIn (i :: ids) = (s.delRowQuiet i).delIn ids := rfl
+
+theorem delIn_rows_ec (s : Cache) (ids : List Nat) :
+    (s.delIn ids).rows = s.rows.filter (fun r => !ids.contains r.rowid) := by
+  induction ids generalizing s with
+  | nil =>
+    rw [delIn_nil]; symm; rw [List.filter_eq_self]; intro a _; rfl
+  | cons i ids ih =>
+    rw [delIn_cons, ih, delRowQuiet_rows_ec, List.filter_filter]
+    apply List.filter_congr
+    intro r _
+    by_cases h : r.rowid = i <;> simp [h]
+
+@[simp] theorem delIn_cfg (s : Cache) (ids : List Nat) : (s.delIn ids).cfg = s.cfg := by
+  induction ids generalizing s with
+  | nil => rfl
+  | cons i ids ih => rw [delIn_cons, ih, delRowQuiet_cfg_ec]
+
+@[simp] theorem delIn_env (s : Cache) (ids : List Nat) : (s.delIn ids).env = s.env := by
+  induction ids generalizing s with
+  | nil => rfl
+  | cons i ids ih => rw [delIn_cons, ih, delRowQuiet_env]
+
+@[simp] theorem delIn_depth (s : Cache) (ids : List Nat) : (s.delIn ids).depth = s.depth := by
+  induction ids generalizing s with
+  | nil => rfl
+  | cons i ids ih => rw [delIn_cons, ih, delRowQuiet_depth_ec]
+
+theorem delIn_log (s : Cache) (a : Act) (ids : List Nat) :
+    (s.log a).delIn ids = (s.delIn ids).log a := by
+  induction ids generalizing s with
+  | nil => rfl
+  | cons i ids ih => rw [delIn_cons, delRowQuiet_log, ih, ← delIn_cons]
+
+theorem delIn_logSql (s : Cache) (a : String) (ids : List Nat) :
+    (s.logSql a).delIn ids = (s.delIn ids).logSql a := delIn_log s _ ids
+
+
+/-! ### one page of `_select_delete` -/
+
+theorem deletePage_rows (s : Cache) (page : List Row) (sel : String) :
+    (s.deletePage page sel).rows = (s.delIn (page.map (·.rowid))).rows := by
+  unfold deletePage transact
+  by_cases hd : s.depth > 0
+  · cases page with
+    | nil => simp [hd, delIn_nil]
+    | cons a t => simp [hd, delIn_logSql]
+  · cases page with
+    | nil => simp [hd, delIn_nil]
+    | cons a t => simp [hd, delIn_logSql, delIn_log]
+
+theorem deletePage_cfg (s : Cache) (page : List Row) (sel : String) :
+    (s.deletePage page sel).cfg = s.cfg := by
+  unfold deletePage transact
+  by_cases hd : s.depth > 0
+  · cases page with
+    | nil => simp [hd]
+    | cons a t => simp [hd]
+  · cases page with
+    | nil => simp [hd]
+    | cons a t => simp [hd]
+
+/-- deleting a page that consists of rows of the table -/
+theorem deletePage_rows_sub (s : Cache) (page : List Row) (sel : String) (hasc : RowidsAsc s.rows)
+    (hsub : ∀ x ∈ page, x ∈ s.rows) :
+    (s.deletePage page sel).rows = s.rows.filter (fun r => decide (r ∉ page)) := by
+  rw [deletePage_rows, delIn_rows_ec, filter_rowids_eq hasc hsub]
+
+/-! ### the `expire` loop -/
+
+theorem expired_expT {now : Int} {r : Row} (h : expired now r = true) : ∃ t, r.expT = some t ∧ t < now := by
+  unfold expired at h
+  cases he : r.expT with
+  | none => simp [he] at h
+  | some t => exact ⟨t, rfl, by simpa [he] using h⟩
+
+/-- the lower-bound clause `? <= expire_time` of the page query -/
+def loOk (lo : Option Int) (r : Row) : Bool :=
+  match lo, r.expT with | some l, some t => l ≤ t | none, _ => true | _, none => false
+
+theorem expireLoop_succ (now : Int) (fuel : Nat) (s : Cache) (lo : Option Int) (n : Nat)
+    (page : List Row)
+    (hpage : page = (isort (fun a b => ltOptInt a.expT b.expT) (s.rows.filter (fun r => expired now r &&
+      loOk lo r))).take s.cfg.page) :
+    expireLoop now (fuel + 1) s lo n =
+      match lastRow? page with
+      | none => (s.deletePage page "pageExpire", n)
+      | some r => expireLoop now fuel (s.deletePage page "pageExpire") r.expT (n + page.length) := by
+  subst hpage; rfl
+
+theorem rowLt_strictWeak : StrictWeak (fun a b : Row => ltOptInt a.expT b.expT) :=
+  ltOptInt_strictWeak.comap (fun r : Row => r.expT)
+
+theorem expireLoop_spec (now : Int) (fuel : Nat) : ∀ (s : Cache) (lo : Option Int) (n : Nat),
+    RowidsAsc s.rows → 0 < s.cfg.page → s.rows.length < fuel →
+    (∀ r ∈ s.rows, expired now r = true → ∀ l, lo = some l → ∀ t, r.expT = some t → l ≤ t) →
+    (expireLoop now fuel s lo n).1.rows = s.rows.filter (fun r => !(expired now r)) ∧
+    (expireLoop now fuel s lo n).2 = n + (s.rows.filter (expired now)).length ∧
+    (expireLoop now fuel s lo n).1.cfg = s.cfg := by
+  induction fuel with
+  | zero => intro s lo n _ _ h; omega
+  | succ fuel ih =>
+    intro s lo n hasc hp hfuel hlo
+    have hsel : s.rows.filter (fun r => expired now r && loOk lo r) =
+        s.rows.filter (expired now) := by
+      apply List.filter_congr
+      intro r hr
+      cases hex : expired now r with
+      | false => rfl
+      | true =>
+        obtain ⟨t, ht, _⟩ := expired_expT hex
+        cases lo with
+        | none => simp [loOk]
+        | some l => simpa [loOk, ht] using hlo r hr hex l rfl t ht
+    rw [expireLoop_succ now fuel s lo n _ rfl, hsel]
+    generalize hpg : (isort (fun a b : Row => ltOptInt a.expT b.expT) (s.rows.filter (expired now))).take s.cfg.page = page
+    have hsubE : ∀ x ∈ page, x ∈ s.rows.filter (expired now) := by
+      intro x hx; rw [← hpg] at hx; exact mem_of_mem_take_isort hx
+    have hsub : ∀ x ∈ page, x ∈ s.rows := fun x hx => (List.mem_filter.1 (hsubE x hx)).1
+    have hpexp : ∀ x ∈ page, expired now x = true := fun x hx => (List.mem_filter.1 (hsubE x hx)).2
+    cases hlast : lastRow? page with
+    | none =>
+      have hnil : page = [] := List.getLast?_eq_none_iff.1 hlast
+      have hE : s.rows.filter (expired now) = [] := by
+        rw [hnil, List.take_eq_nil_iff] at hpg
+        rcases hpg with h | h
+        · omega
+        · have := length_isort_ec (fun a b : Row => ltOptInt a.expT b.expT) (s.rows.filter (expired now))
+          rw [h] at this
+          exact List.eq_nil_of_length_eq_zero this.symm
+      simp only [deletePage_cfg, and_true]
+      rw [deletePage_rows_sub s page _ hasc hsub, hnil, hE]
+      refine ⟨?_, rfl⟩
+      apply List.filter_congr
+      intro r hr
+      have : expired now r = false := by
+        cases hex : expired now r with
+        | false => rfl
+        | true =>
+          have : r ∈ s.rows.filter (expired now) := List.mem_filter.2 ⟨hr, hex⟩
+          rw [hE] at this; cases this
+      simp [this]
+    | some r =>
+      have hrp : r ∈ page := List.mem_of_getLast? hlast
+      have hrows := deletePage_rows_sub s page "pageExpire" hasc hsub
+      have hcfg := deletePage_cfg s page "pageExpire"
+      have hnd : s.rows.Nodup := hasc.nodup
+      have hpnd : page.Nodup := by
+        rw [← hpg]; exact nodup_take_isort (hnd.sublist List.filter_sublist) _
+      have hlen := length_filter_not_mem hnd hpnd hsub
+      have hpos : 0 < page.length := List.length_pos_of_mem hrp
+      simp only []
+      have hasc' : RowidsAsc (s.deletePage page "pageExpire").rows := by
+        rw [hrows]; exact hasc.filter _
+      have := ih (s.deletePage page "pageExpire") r.expT (n + page.length) hasc'
+        (by rw [hcfg]; exact hp) (by rw [hrows]; omega)
+        (by
+          intro x hx hex l hl t ht
+          rw [hrows] at hx
+          obtain ⟨hxs, hxp⟩ := List.mem_filter.1 hx
+          have hxp : x ∉ page := by simpa using hxp
+          have hxE : x ∈ s.rows.filter (expired now) := List.mem_filter.2 ⟨hxs, hex⟩
+          have hle := isort_take_le rowLt_strictWeak (s.rows.filter (expired now)) s.cfg.page
+            (a := r) (b := x) (by rw [hpg]; exact hrp) hxE (by rw [hpg]; exact hxp)
+          simp only [ht, hl, ltOptInt] at hle
+          simpa using hle)
+      obtain ⟨h1, h2, h3⟩ := this
+      refine ⟨?_, ?_, ?_⟩
+      · rw [h1, hrows, List.filter_filter]
+        apply List.filter_congr
+        intro x hx
+        by_cases hxp : x ∈ page
+        · simp [hxp, hpexp x hxp]
+        · simp [hxp]
+      · rw [h2, hrows, List.filter_filter]
+        have hE := length_filter_not_mem (hnd.sublist (List.filter_sublist (p := expired now))) hpnd hsubE
+        rw [List.filter_filter] at hE
+        have : List.filter (fun a => expired now a && decide (a ∉ page)) s.rows =
+            List.filter (fun a => decide (a ∉ page) && expired now a) s.rows := by
+          apply List.filter_congr; intro x _; exact Bool.and_comm _ _
+        rw [this]; omega
+      · rw [h3, hcfg]
+
+theorem expire_spec (s : Cache) (now : Int) (hasc : RowidsAsc s.rows) (hp : 0 < s.cfg.page) :
+    (expireLoop now (s.rows.length + 1) s none 0).1.rows = s.rows.filter (fun r => !(expired now r)) ∧
+    (expireLoop now (s.rows.length + 1) s none 0).2 = (s.rows.filter (expired now)).length ∧
+    (expireLoop now (s.rows.length + 1) s none 0).1.cfg = s.cfg := by
+  have := expireLoop_spec now (s.rows.length + 1) s none 0 hasc hp (by omega)
+    (by intro r _ _ l hl; cases hl)
+  simpa using this
+
+
+/-! ### look-ups -/
+
+theorem eqv_self {k : SqlVal} (h : k ≠ .null) : k.eqv k = true := by
+  cases k <;> simp_all [SqlVal.eqv]
+
+@[simp] theorem selLive_log (s : Cache) (a : Act) : (s.log a).selLive = s.selLive := rfl
+@[simp] theorem selKey_log (s : Cache) (a : Act) : (s.log a).selKey = s.selKey := rfl
+
+/-- a key all of whose rows are dead is not found by the `selLive` query -/
+theorem selLive_none_of_dead {s : Cache} {k : SqlVal} {raw : Bool} {now : Int}
+    (h : ∀ r ∈ s.rows, keyMatch k raw r = true → live now r = false) : s.selLive k raw now = none := by
+  unfold selLive
+  rw [List.find?_eq_none]
+  intro r hr hc
+  rw [Bool.and_eq_true] at hc
+  rw [h r hr hc.1] at hc
+  exact Bool.false_ne_true hc.2
+
+/-- `__delitem__` of a dead key raises KeyError and rolls back to the same table -/
+theorem delitem_dead (s : Cache) (E : Externals) (now : Int) (k : PyVal)
+    (h : ∀ r ∈ s.rows, keyMatch (DC.put E s.cfg.disk k).1 (DC.put E s.cfg.disk k).2 r = true → live now r = false) :
+    ∃ t, s.delitem E now k = (t, .exc "KeyError") ∧ t.rows = s.rows := by
+  have hn := selLive_none_of_dead h
+  unfold delitem
+  rcases hput : DC.put E s.cfg.disk k with ⟨dbk, raw⟩
+  rw [hput] at hn
+  simp only at hn ⊢
+  unfold transact
+  by_cases hd : s.depth > 0
+  · simp only [hd, if_true, hn]
+    exact ⟨_, rfl, rfl⟩
+  · simp only [hd, if_false, hn, selLive_log]
+    exact ⟨_, rfl, rfl⟩
+
+end Cache
+end DC
